@@ -12,7 +12,7 @@ CLAIM = dict(
          'executed on the real Tridiagonal<Rat/f64/Complex>; (iii) validates recorded executions for n = 1..12: histories over every constructor and operation, exact solve-or-refuse '
          'on general integer data, a zero pivot arising at every chosen elimination step, and diagonally dominant systems. The trace specification decides refusal from the minors: '
          'when the model refuses the call must have panicked with a message mentioning "zero"; otherwise it must have returned x with T x = r exactly (recomputed by TLC). '
-         'Awkward pivots: integer systems on which the textbook elimination is exact in f64 although the pivots (49, 51, 98, 103, 147, ...) have inexact reciprocals, including singular ones whose zero pivot is an exact cancellation of such numbers - exact answer or refusal is demanded of f64 as of Rat. Exponent sweep: exact systems scaled by 2^k over the whole f64 exponent axis (-1070..1020; subnormal pivots; Complex for -530..500), right-hand side scaled alike or not at all, det where representable, judged exactly on the integer system. CPU count: a sample of histories and products up to n = 40 with the process restricted to 1..3 CPUs. Refused calls and what follows (sequences on ONE object, all element types, on data where the float elimination is exact so that the model decides answer-or-refusal and the exact solution): the object starts with a zero pivot at the first, a middle or the LAST step (n = 1: the zero entry); the refused solve, a right-hand side of another size (must be refused) and out-of-range get / set are followed at once by the same solve again (must refuse again), det (exactly 0) and the observers, the same calls on a clone, stand-alone solves on other regular and singular objects on the same thread, mutators that keep the pivot zero (assignment of the same value, *= 2, negation - must still refuse, twice), the assignment that repairs it (must return the exact solution, repeatedly and on a clone), and back; a refused call leaves the object as it was. Operands of another size: sum, difference and product with an operand of size n+1 / n-1 must refuse. Relatively tiny pivots: exact dyadic f64 / Complex systems (n = 2..6, every step) on which the whole elimination is exact and one pivot is 2^-30, 2^-52, 2^-53 (real) or 2^-30, 2^-53, 2^-60 (purely imaginary) times its diagonal entry; entries, right-hand side and returned solution are logged as polynomials in eps = 2^-t with small Gaussian-integer coefficients and TLC decides over that polynomial ring (minors must not vanish identically, T xs = L eps^K r coefficientwise) - a refusal of such a regular system is a violation (a real pivot 2^-60 times its diagonal cannot occur in an exact f64 elimination and is therefore only covered for Complex). Complex on the axes: Gaussian-integer tridiagonal systems with pivots from {+-1, +-i, +-2, +-2i, +-4i, +-1+-i} (purely imaginary pivots arising during elimination, a zero pivot at a chosen step) are judged EXACTLY over Gaussian rationals (complex minor recurrence and cross-multiplied residual in TLC); diagonally dominant systems with every entry exactly on an axis in units; scalar factors and divisors i, -i, 2i, -1 (result * divisor = operand) in histories and sequences. The diagonally dominant float systems are repeated for every n at extreme magnitudes (uniformly scaled by 2^+-60, 2^+-200, 2^+-400, solution O(1) or equally extreme; row- / column-graded): same guard on exactly descaled data, a refusal is a violation. '
+         'Awkward pivots: integer systems on which the textbook elimination is exact in f64 although the pivots (49, 51, 98, 103, 147, ...) have inexact reciprocals, including singular ones whose zero pivot is an exact cancellation of such numbers - exact answer or refusal is demanded of f64 as of Rat. Exponent sweep: exact systems scaled by 2^k over the whole f64 exponent axis (-1070..1020; subnormal pivots; Complex for -530..500), right-hand side scaled alike or not at all, det where representable, judged exactly on the integer system. CPU count: a sample of histories and products up to n = 40 with the process restricted to 1..3 CPUs. Std-trait forms: Clone::clone_from as a mutator of the sequence model, along chains of sources of the same size, larger, smaller, 1 x 1 and back, built by every constructor / grown by resize / cloned from a dropped original, targets fresh / mutated / resized - the target must become the source, size included, the source stay as it was; then size, diagonals, conversion, index reads, product, det and solve (exact for every element type) on target and source, a write to one and a look at the other (both ways), clone_from in the opposite direction, clone-and-drop. Refused calls and what follows (sequences on ONE object, all element types, on data where the float elimination is exact so that the model decides answer-or-refusal and the exact solution): the object starts with a zero pivot at the first, a middle or the LAST step (n = 1: the zero entry); the refused solve, a right-hand side of another size (must be refused) and out-of-range get / set are followed at once by the same solve again (must refuse again), det (exactly 0) and the observers, the same calls on a clone, stand-alone solves on other regular and singular objects on the same thread, mutators that keep the pivot zero (assignment of the same value, *= 2, negation - must still refuse, twice), the assignment that repairs it (must return the exact solution, repeatedly and on a clone), and back; a refused call leaves the object as it was. Operands of another size: sum, difference and product with an operand of size n+1 / n-1 must refuse. Relatively tiny pivots: exact dyadic f64 / Complex systems (n = 2..6, every step) on which the whole elimination is exact and one pivot is 2^-30, 2^-52, 2^-53 (real) or 2^-30, 2^-53, 2^-60 (purely imaginary) times its diagonal entry; entries, right-hand side and returned solution are logged as polynomials in eps = 2^-t with small Gaussian-integer coefficients and TLC decides over that polynomial ring (minors must not vanish identically, T xs = L eps^K r coefficientwise) - a refusal of such a regular system is a violation (a real pivot 2^-60 times its diagonal cannot occur in an exact f64 elimination and is therefore only covered for Complex). Complex on the axes: Gaussian-integer tridiagonal systems with pivots from {+-1, +-i, +-2, +-2i, +-4i, +-1+-i} (purely imaginary pivots arising during elimination, a zero pivot at a chosen step) are judged EXACTLY over Gaussian rationals (complex minor recurrence and cross-multiplied residual in TLC); diagonally dominant systems with every entry exactly on an axis in units; scalar factors and divisors i, -i, 2i, -1 (result * divisor = operand) in histories and sequences. The diagonally dominant float systems are repeated for every n at extreme magnitudes (uniformly scaled by 2^+-60, 2^+-200, 2^+-400, solution O(1) or equally extreme; row- / column-graded): same guard on exactly descaled data, a refusal is a violation. '
          'Sequences on ONE object (n = 1..12, all three types): det, solve, product, conversion and all reads through the index operator before and after EVERY mutating operation (index writes, transpose_in_place, resize, += c, -= c, *= s, /= s) '
          'and every re-binding of the object to an operator result (neg, +, -, * s, / s); the trace specification keeps the model\'s current value and demands that every event starts from it.',
     note='Exact: all Rat cases; f64/Complex on integer histories and on data constructed so that every operation of the Thomas algorithm is exact in binary floating point (pivots +-1, +-2, '
